@@ -2,7 +2,10 @@ module verifsim
 
 go 1.23.0
 
-require golang.org/x/tools v0.33.0
+require (
+	github.com/dcaiafa/loxlex v0.5.0
+	golang.org/x/tools v0.33.0
+)
 
 require (
 	golang.org/x/mod v0.24.0 // indirect
